@@ -75,6 +75,8 @@ def ceval(e, env):
 
 
 def add(a, b):
+    if a[0] == "const" and b[0] == "const":
+        return C(a[1] + b[1])
     if a == C(0):
         return b
     if b == C(0):
